@@ -31,7 +31,7 @@ var pinFiles = map[string][]string{
 	"C10": {"stateresolution.go", "stateresolutionv2.go", "stateresolutionv2heaps.go", "eventauth.go"},
 	"C11": {"stateresolution.go", "stateresolutionv2.go", "stateresolutionv2heaps.go", "authstate.go", "backfill.go", "load.go"},
 	"C12": {"keyring.go", "keys.go", "signing.go"},
-	"C13": {"fclient/request.go", "signing.go", "spec/servername.go"},
+	"C13": {"fclient/request.go", "signing.go", "spec/servername.go", "keyring.go", "keys.go"},
 	"C14": {"authstate.go", "authchain.go", "load.go", "backfill.go"},
 	"C15": {"handlejoin.go", "handleleave.go", "handleinvite.go", "invite.go", "performjoin.go", "performinvite.go",
 		"eventauth.go:StateNeededForProtoEvent,accumulateStateNeeded,Tuples,AuthEventReferences,AddEvent",
